@@ -86,7 +86,31 @@ def stream_hexdigest(model):
             'reproduced': kind != 'ok' or v != hashlib.sha256(data).hexdigest()}
 
 
-ORACLES = {f.__name__: f for f in (chunker_ctor, blake2b_ctor, bits_ctor, parse_repository, stream_hexdigest)}
+def ref_bytes_to_human(value, prec=2):
+    """the documented meaning: decimal units B / K / M / G (G is the largest: everything from 10**9 up is counted in G), the number
+    rounded to `prec` digits and printed in the shortest %g form"""
+    from fractions import Fraction as F
+    if value < 10 ** 3:
+        d, u = 1, 'B'
+    elif value < 10 ** 6:
+        d, u = 10 ** 3, 'K'
+    elif value < 10 ** 9:
+        d, u = 10 ** 6, 'M'
+    else:
+        d, u = 10 ** 9, 'G'
+    return f'{round(value / d, prec):g}{u}'
+
+
+def bytes_to_human(model):
+    from replicat import utils
+    v = as_int(model['value'])
+    prec = as_int(model.get('prec', '2'))
+    kind, got = call(utils.bytes_to_human, v, prec) if 'prec' in model else call(utils.bytes_to_human, v)
+    want = ref_bytes_to_human(v, prec)
+    return {'input': {'value': v, 'prec': prec}, 'observed': got, 'expected': want, 'reproduced': kind != 'ok' or got != want}
+
+
+ORACLES = {f.__name__: f for f in (chunker_ctor, blake2b_ctor, bits_ctor, parse_repository, stream_hexdigest, bytes_to_human)}
 
 
 def main():
